@@ -79,7 +79,8 @@ def do_confirm(d, full):
             dst = os.path.join(wt, demo)
             shutil.copy(os.path.join(d, "demo_test.go"), dst)
             pkg = "./" + os.path.dirname(demo)[len("src/"):]
-            run = "go test -vet=off -count=1 -run 'Seeded|seeded|Demo' %s 2>&1 | tail -25" % pkg
+            race = "-race" in (meta.get("demo_cmd") or "") or "-race" in open(os.path.join(d, "demo_test.go")).read(3000)
+            run = "%sgo test %s-vet=off -count=1 -run 'Seeded|seeded|Demo' %s 2>&1 | tail -25" % ("CGO_ENABLED=1 " if race else "", "-race " if race else "", pkg)
             rc, o = sh(run, cwd=os.path.join(wt, "src"))
             res["demo_fails_on_changed"] = ("FAIL" in o) or ("VIOLATION" in o)
             res["demo_changed_tail"] = o[-1000:]
